@@ -14,8 +14,9 @@ const (
 	PMixed // any type
 	PArray
 	PBoolNil
-	PBigInt // integers beyond 2^53 (never indexed, never compared with floats by construction of literals)
-	PEdge   // values whose order-preserving encodings end in 0xFF / 0x00 bytes, and their neighbours (inside the key domain)
+	PBigInt  // integers beyond 2^53 (never indexed, never compared with floats by construction of literals)
+	PEdge    // values whose order-preserving encodings end in 0xFF / 0x00 bytes, and their neighbours (inside the key domain)
+	PTimeFar // times anywhere between year 1 and 9999 (outside the UnixNano range: compared and sorted, never indexed)
 	nProfiles
 )
 
@@ -36,7 +37,7 @@ type Profile struct {
 	Nil    int // percent
 }
 
-var stringPool = []string{"", "a", "ab", "abc", "b", "ba", "a\x00", "a\x00b", "a\xff", "\xff", "\xff\xff", "é", "zz", "A", "a b", "0", "10", "9"}
+var stringPool = []string{"", "a", "ab", "abc", "b", "ba", "a\x00", "a\x00b", "a\xff", "\xff", "\xff\xff", "é", "zz", "A", "a b", "0", "10", "9", "$a", "$x", "$"}
 
 var zones = []*time.Location{
 	time.UTC,
@@ -196,12 +197,17 @@ func (r *Rng) Value(p Profile) any {
 		return int64(r.Range(-3, 12))
 	case PEdge:
 		return Pick(r, edgeValues)
+	case PTimeFar:
+		if r.P(30) {
+			return r.Time()
+		}
+		return time.Date(Pick(r, []int{1, 1500, 1600, 1677, 1700, 1969, 2038, 2262, 2300, 9999}), time.Month(r.Range(1, 12)), r.Range(1, 28), r.Intn(24), 0, 0, r.Intn(2)*999, time.UTC)
 	}
 	return r.Nested(2)
 }
 
 func (r *Rng) Profile() Profile {
-	kinds := []int{PSmallInt, PSmallInt, PMixedNum, PMixedNum, PString, PTime, PMixed, PMixed, PArray, PBoolNil, PSmallInt, PMixedNum, PBigInt, PEdge}
+	kinds := []int{PSmallInt, PSmallInt, PMixedNum, PMixedNum, PString, PTime, PMixed, PMixed, PArray, PBoolNil, PSmallInt, PMixedNum, PBigInt, PEdge, PTimeFar}
 	p := Profile{Kind: Pick(r, kinds)}
 	switch r.Intn(4) {
 	case 0:
